@@ -24,7 +24,7 @@ EXPLANATION = ("Contract proof (DFCC loop contract, unbounded function size, wit
 TRUSTED = ["imports_obj_find_name_from_offset, Symbols::lookup and Linker::search_code_from_symbol replaced by contracts returning arbitrary results",
            "link_function_mips is extracted verbatim from asm/mips.cpp (its translation unit shares enumerator names with other table headers and is 2.8 kLoC); nothing of the function body is dropped"]
 MANIFEST = {
-    "text": "Partial: for any function size the relocation loop copies every word unchanged except jal, whose 26-bit field is bound to the final address of the named symbol; unresolved symbols are errors; exactly size bytes are appended.",
-    "note": "Object-file parsing, archive handling, symbol discovery and the once-only placement are not decided.",
-    "technique": "CBMC DFCC loop contract (witness word) on link_function_mips extracted verbatim from asm/mips.cpp + core/add_bin.cpp",
+    "text": "Partial: for any function size the relocation loop copies every word unchanged except jal, whose 26-bit field is bound to the final address of the named symbol; unresolved symbols are errors; exactly size bytes are appended; AsmContext::link places every needed symbol (including those discovered while placing others) exactly once and hands the relocation step the offset and size reported by the defining import, archive or object (bounded list).",
+    "note": "Object-file parsing, archive handling and symbol discovery are not decided.",
+    "technique": "CBMC DFCC loop contract (witness word) on link_function_mips extracted verbatim from asm/mips.cpp + core/add_bin.cpp; bounded model checking of AsmContext::link / Linker::get_code_from_symbol (extracted verbatim) and of the ELF symbol lookups",
 }
